@@ -28,8 +28,12 @@ What the code does, including its quirks:
 * `threshold` divides by `power / 100`; since repair f9db0000 a tally below 100 aer (no hundredth) simply does
   not reach the threshold (before it: division by zero, a Go panic inside block execution);
 * `VoteList.Less` breaks ties by `Candidate[7:]` read as a big-endian integer when the *left* candidate
-  is 39 bytes long, else by the whole candidate as an integer (leading zero bytes do not count), and —
-  since repair 1c75543b — by `bytes.Compare` of the whole candidates when those integers are equal;
+  is 39 bytes long (and, since repair 3f9132cd, the right one at least 7), else by the whole candidate as
+  an integer (leading zero bytes do not count), and — since repair 1c75543b — by `bytes.Compare` of the
+  whole candidates when those integers are equal;
+* a parameter candidate is any string `big.Int.SetString(·, 10)` accepts — an optional sign, then digits —
+  and `validateById` admits every negative number; the value that is persisted *and* (since repair
+  949e5958) kept in memory when it wins is `Bytes()` of it, the absolute value;
 * the voting-power rank ignores a `sub` for an account that is not yet a voter in memory, ignores an
   `add` of 0, keeps zero deltas in `changes`, removes a voter whose power becomes 0, and keeps each
   bucket ordered by *descending* account id;
@@ -207,21 +211,18 @@ def deserNameMap (d : Bytes) : Option (Bytes × Bytes) :=
 abbrev Entry := Bytes × Nat
 
 /-- `VoteList.Less(i, j)` with `a = Votes[i]`, `b = Votes[j]` (after repair 1c75543b: when the integer
-keys tie, `bytes.Compare` of the whole candidates decides). `List.drop` stands for `Candidate[7:]`,
-which panics in Go when the *right* candidate is shorter than 7 bytes: see `lessPanics`. -/
+keys tie, `bytes.Compare` of the whole candidates decides; after repair 3f9132cd: the peer-id branch
+`Candidate[7:]` is taken only when the *right* candidate is at least 7 bytes long — before it the slice
+panicked for a 39-character parameter candidate tied with a short one). -/
 def less (a b : Entry) : Bool :=
   if a.2 < b.2 then true
   else if a.2 = b.2 then
-    let ka := if a.1.length = 39 then beNat (a.1.drop 7) else beNat a.1
-    let kb := if a.1.length = 39 then beNat (b.1.drop 7) else beNat b.1
+    let ka := if a.1.length = 39 ∧ 7 ≤ b.1.length then beNat (a.1.drop 7) else beNat a.1
+    let kb := if a.1.length = 39 ∧ 7 ≤ b.1.length then beNat (b.1.drop 7) else beNat b.1
     if ka > kb then true
     else if ka = kb then !bytesLe a.1 b.1
     else false
   else false
-
-/-- The inputs on which `Less` panics (slice bounds): equal amounts, left candidate of 39 bytes, right
-candidate shorter than 7. -/
-def lessPanics (a b : Entry) : Bool := a.2 = b.2 && a.1.length = 39 && b.1.length < 7
 
 /-- `sort.Sort(sort.Reverse(list))` as insertion of each element before the first one that is `Less` than it:
 the result has no `Less`-ascent. Input order = map iteration order (an argument). -/
@@ -473,12 +474,24 @@ def entriesOf (t : AMap (Issue × Bytes) Nat) (i : Issue) : List Entry :=
 /-- The persisted ranking of an issue: `sort.Sort(sort.Reverse(·))` of its entries. -/
 def rankOf (t : AMap (Issue × Bytes) Nat) (i : Issue) : List Entry := rankSort (entriesOf t i)
 
-/-- Decimal string → number (`big.Int.SetString(s, 10)` restricted to digit strings; anything else: `none`). -/
-def parseDec (b : Bytes) : Option Nat :=
+/-- A non-empty string of decimal digits → number; anything else: `none`. -/
+def parseDigits (b : Bytes) : Option Nat :=
   if b.isEmpty then none else
   b.foldl (fun acc x => match acc with
     | none => none
     | some n => if 48 ≤ x.toNat ∧ x.toNat ≤ 57 then some (n * 10 + (x.toNat - 48)) else none) (some 0)
+
+/-- `big.Int.SetString(s, 10)`: an optional `+` or `-`, then at least one digit, nothing else. The result is
+(negative?, magnitude). -/
+def parseSigned (b : Bytes) : Option (Bool × Nat) :=
+  match b with
+  | 45 :: r => (parseDigits r).map fun n => (true, n)
+  | 43 :: r => (parseDigits r).map fun n => (false, n)
+  | _ => (parseDigits b).map fun n => (false, n)
+
+/-- The magnitude of a decimal string: what `value.Bytes()` keeps of it (`updateParam` persists it and, since
+repair 949e5958, keeps it in memory; before, the signed value stayed in memory). -/
+def parseDec (b : Bytes) : Option Nat := (parseSigned b).map (·.2)
 
 /-- VoteResult.threshold (after repair f9db0000: a top tally below 100 aer has no hundredth and decides nothing;
 before it the division by zero was a Go panic). The result is always `some _`: the `Option` is kept for
@@ -675,7 +688,7 @@ def issueOfId (id : String) : Option Issue :=
 
 def maxAER : Nat := 500000000 * aergo
 
-/-- validateById. -/
+/-- validateById on a non-negative number. -/
 def validById (i : Issue) (n : Nat) : Bool :=
   if n = 0 then false else
   match i with
@@ -683,10 +696,14 @@ def validById (i : Issue) (n : Nat) : Bool :=
   | .bp => true
   | _ => decide (n ≤ maxAER)
 
+/-- validateById on a signed number: zero is refused, a negative number passes every upper bound. -/
+def validSigned (i : Issue) (v : Bool × Nat) : Bool :=
+  if v.2 = 0 then false else if v.1 then true else validById i v.2
+
 /-- A candidate of a parameter vote that is a number outside the parameter's range. -/
 def daoArgBad (i : Issue) (c : Bytes) : Bool :=
-  match parseDec c with
-  | some n => !validById i n
+  match parseSigned c with
+  | some v => !validSigned i v
   | none => true
 
 /-- v1voteDAO: `args` are the JSON string arguments after the id (MultipleChoice = 1, no candidate
@@ -699,7 +716,7 @@ def voteDAO (s : St) (a : Bytes) (h : Nat) (id : String) (args : List Bytes) : R
   | some i =>
     if args.length < 1 then (.daoTooFew, s) else
     if args.length > 1 then (.daoTooMany, s) else
-    if args.any (fun c => (parseDec c).isNone) then (.daoBadNumber, s) else
+    if args.any (fun c => (parseSigned c).isNone) then (.daoBadNumber, s) else
     if args.any (daoArgBad i) then (.daoBadRange, s) else
     castVote s i a h args
 
